@@ -387,61 +387,123 @@ Qed.
 Definition avoids_tm (a : acc) : Prop :=
   a_loc a <> tm_err /\ a_loc a <> Var "gm.grCount" /\ a_loc a <> Var "GoroutineManager.Count".
 
-Lemma tm_done_no_conflict : forall a b, In a tm_done -> In b tm_done -> ~ conflict a b.
+(* the accesses the task manager itself makes *)
+Definition tm_acc (hl : list string) (fails_somewhere : bool) (b : acc) : Prop :=
+  b = has_error_with hl \/ (fails_somewhere = true /\ In b set_error) \/ In b tm_done.
+
+Lemma in_set_error_lock : forall b, In b set_error -> In "gm.grTaskMutex"%string (a_locks b) /\ a_loc b = tm_err.
+Proof. intros b [<-|[<-|[]]]; cbn; auto. Qed.
+Lemma in_tm_done_lock : forall b, In b tm_done -> In "gm.grTaskMutex"%string (a_locks b) /\ a_loc b <> tm_err.
+Proof. intros b [<-|[<-|[<-|[<-|[]]]]]; cbn; split; auto; discriminate. Qed.
+
+(* two task-manager accesses never conflict when either nothing fails (the slot is only read) or
+   HasError holds the mutex *)
+Lemma tm_accs_no_conflict : forall hl fs a b,
+  (fs = false \/ In "gm.grTaskMutex"%string hl) -> tm_acc hl fs a -> tm_acc hl fs b -> ~ conflict a b.
 Proof.
-  intros a b Ha Hb. apply (drf_mutex a b "gm.grTaskMutex"%string).
-  - cbn in Ha. destruct Ha as [<-|[<-|[<-|[<-|[]]]]]; cbn; auto.
-  - cbn in Hb. destruct Hb as [<-|[<-|[<-|[<-|[]]]]]; cbn; auto.
+  intros hl fs a b Hcase Ha Hb.
+  destruct Ha as [->|[[Hfa Ha]|Ha]], Hb as [->|[[Hfb Hb]|Hb]].
+  - apply reads_no_conflict; reflexivity.
+  - destruct Hcase as [->|Hl]; [discriminate|].
+    destruct (in_set_error_lock b Hb) as [Lb _]. apply (drf_mutex _ _ "gm.grTaskMutex"%string); cbn; auto.
+  - destruct (in_tm_done_lock b Hb) as [_ Nb]. intros Hc. apply conflict_loc in Hc. cbn in Hc. congruence.
+  - destruct Hcase as [->|Hl]; [discriminate|].
+    destruct (in_set_error_lock a Ha) as [La _]. apply (drf_mutex _ _ "gm.grTaskMutex"%string); cbn; auto.
+  - destruct (in_set_error_lock a Ha) as [La _]. destruct (in_set_error_lock b Hb) as [Lb _].
+    apply (drf_mutex _ _ "gm.grTaskMutex"%string); auto.
+  - destruct (in_set_error_lock a Ha) as [La _]. destruct (in_tm_done_lock b Hb) as [Lb _].
+    apply (drf_mutex _ _ "gm.grTaskMutex"%string); auto.
+  - destruct (in_tm_done_lock a Ha) as [_ Na]. intros Hc. apply conflict_loc in Hc. cbn in Hc. congruence.
+  - destruct (in_tm_done_lock a Ha) as [La _]. destruct (in_set_error_lock b Hb) as [Lb _].
+    apply (drf_mutex _ _ "gm.grTaskMutex"%string); auto.
+  - destruct (in_tm_done_lock a Ha) as [La _]. destruct (in_tm_done_lock b Hb) as [Lb _].
+    apply (drf_mutex _ _ "gm.grTaskMutex"%string); auto.
 Qed.
 
-Lemma avoid_not_conflict_tm : forall a b, avoids_tm a -> (b = has_error \/ In b set_error \/ In b tm_done) -> ~ conflict a b.
+Lemma avoid_not_conflict_tm : forall hl fs a b, avoids_tm a -> tm_acc hl fs b -> ~ conflict a b.
 Proof.
-  intros a b [H1 [H2 H3]] Hb Hc. apply conflict_loc in Hc.
-  destruct Hb as [->|[Hb|Hb]].
+  intros hl fs a b [H1 [H2 H3]] Hb Hc. apply conflict_loc in Hc.
+  destruct Hb as [->|[[_ Hb]|Hb]].
   - cbn in Hc. contradiction.
   - cbn in Hb. destruct Hb as [<-|[<-|[]]]; cbn in Hc; contradiction.
   - cbn in Hb. destruct Hb as [<-|[<-|[<-|[<-|[]]]]]; cbn in Hc; contradiction.
 Qed.
 
-(* error-free runs of a task-manager site are race free *)
+Lemma tm_iter_in : forall hl body fails fs k a, (forall k, fails k = true -> fs = true) ->
+  In a (tm_iter hl body fails k) -> In a (body k) \/ tm_acc hl fs a.
+Proof.
+  intros hl body fails fs k a Hfs H. unfold tm_iter in H. destruct H as [<-|H]; [right; left; reflexivity|].
+  apply in_app_or in H. destruct H as [H|H]; [left; exact H|].
+  destruct (fails k) eqn:E; [|destruct H]. right. right. left. split; [apply (Hfs k E)|exact H].
+Qed.
+
+Lemma tm_epi_in : forall hl epi fs i a, In a (tm_epi hl epi i) -> In a (epi i) \/ tm_acc hl fs a.
+Proof.
+  intros hl epi fs i a H. unfold tm_epi in H. apply in_app_or in H. destruct H as [H|[<-|H]].
+  - left. exact H.
+  - right. left. reflexivity.
+  - right. right. right. exact H.
+Qed.
+
+(* a task-manager site is race free when no record raises an error, or - whatever the records do -
+   when HasError reads the slot under the mutex *)
+Lemma tm_drf_aux : forall fs hl cap pre post body epi fails len n, 1 <= n ->
+  (forall k, fails k = true -> fs = true) -> (fs = false \/ In "gm.grTaskMutex"%string hl) ->
+  record_local body -> epilogue_local body epi ->
+  (forall k a, In a (body k) -> avoids_tm a) -> (forall i a, In a (epi i) -> avoids_tm a) ->
+  race_free cap (tm_exec_with hl pre post body epi fails len n).
+Proof.
+  intros fs hl cap pre post body epi fails len n Hn Hfs Hc' Hrl [He1 He2] Hab Hae.
+  unfold tm_exec_with, tm_workers. apply drf_by_ranges; [exact Hn| |].
+  - intros k1 k2 a1 a2 Hne H1 H2.
+    apply (tm_iter_in hl body fails fs) in H1; [|exact Hfs]. apply (tm_iter_in hl body fails fs) in H2; [|exact Hfs].
+    destruct H1 as [H1|H1], H2 as [H2|H2].
+    + apply (Hrl k1 k2); assumption.
+    + eapply avoid_not_conflict_tm; eauto.
+    + intros Hc. apply conflict_sym in Hc. revert Hc. eapply avoid_not_conflict_tm; eauto.
+    + eapply tm_accs_no_conflict; eauto.
+  - split.
+    + intros i j a b Hne Ha Hb.
+      apply (tm_epi_in hl epi fs) in Ha. apply (tm_epi_in hl epi fs) in Hb.
+      destruct Ha as [Ha|Ha], Hb as [Hb|Hb].
+      * apply (He1 i j); assumption.
+      * eapply avoid_not_conflict_tm; eauto.
+      * intros Hc. apply conflict_sym in Hc. revert Hc. eapply avoid_not_conflict_tm; eauto.
+      * eapply tm_accs_no_conflict; eauto.
+    + intros i k a b Ha Hb.
+      apply (tm_epi_in hl epi fs) in Ha. apply (tm_iter_in hl body fails fs) in Hb; [|exact Hfs].
+      destruct Ha as [Ha|Ha], Hb as [Hb|Hb].
+      * apply (He2 i k); assumption.
+      * eapply avoid_not_conflict_tm; eauto.
+      * intros Hc. apply conflict_sym in Hc. revert Hc. eapply avoid_not_conflict_tm; eauto.
+      * eapply tm_accs_no_conflict; eauto.
+Qed.
+
+Theorem tm_drf_gen : forall hl cap pre post body epi fails len n, 1 <= n ->
+  ((forall k, fails k = false) \/ In "gm.grTaskMutex"%string hl) ->
+  record_local body -> epilogue_local body epi ->
+  (forall k a, In a (body k) -> avoids_tm a) -> (forall i a, In a (epi i) -> avoids_tm a) ->
+  race_free cap (tm_exec_with hl pre post body epi fails len n).
+Proof.
+  intros hl cap pre post body epi fails len n Hn [Hf|Hl] Hrl Hel Hab Hae.
+  - apply (tm_drf_aux false); auto. intros k Hk. rewrite Hf in Hk. discriminate.
+  - apply (tm_drf_aux true); auto.
+Qed.
+
+(* the code as it stands: error-free runs *)
 Theorem tm_drf : forall cap pre post body epi fails len n, 1 <= n ->
   (forall k, fails k = false) ->
   record_local body -> epilogue_local body epi ->
   (forall k a, In a (body k) -> avoids_tm a) -> (forall i a, In a (epi i) -> avoids_tm a) ->
   race_free cap (tm_exec pre post body epi fails len n).
-Proof.
-  intros cap pre post body epi fails len n Hn Hf Hrl [He1 He2] Hab Hae.
-  unfold tm_exec, tm_workers. apply drf_by_ranges; [exact Hn| |].
-  - (* record_local (tm_iter body fails) *)
-    intros k1 k2 a1 a2 Hne H1 H2. unfold tm_iter in H1, H2. rewrite Hf, app_nil_r in H1, H2.
-    destruct H1 as [<-|H1], H2 as [<-|H2].
-    + apply reads_no_conflict; reflexivity.
-    + intros Hc. apply conflict_sym in Hc. revert Hc. apply avoid_not_conflict_tm; [eapply Hab; eauto|left; reflexivity].
-    + apply avoid_not_conflict_tm; [eapply Hab; eauto|left; reflexivity].
-    + apply (Hrl k1 k2); assumption.
-  - split.
-    + intros i j a b Hne Ha Hb. unfold tm_epi in Ha, Hb.
-      apply in_app_or in Ha. apply in_app_or in Hb.
-      destruct Ha as [Ha|[<-|Ha]], Hb as [Hb|[<-|Hb]].
-      * apply (He1 i j); assumption.
-      * apply avoid_not_conflict_tm; [eapply Hae; eauto|left; reflexivity].
-      * apply avoid_not_conflict_tm; [eapply Hae; eauto|right; right; exact Hb].
-      * intros Hc. apply conflict_sym in Hc. revert Hc. apply avoid_not_conflict_tm; [eapply Hae; eauto|left; reflexivity].
-      * apply reads_no_conflict; reflexivity.
-      * intros Hc. apply conflict_loc in Hc. cbn in Hb. destruct Hb as [<-|[<-|[<-|[<-|[]]]]]; cbn in Hc; discriminate.
-      * intros Hc. apply conflict_sym in Hc. revert Hc. apply avoid_not_conflict_tm; [eapply Hae; eauto|right; right; exact Ha].
-      * intros Hc. apply conflict_loc in Hc. cbn in Ha. destruct Ha as [<-|[<-|[<-|[<-|[]]]]]; cbn in Hc; discriminate.
-      * apply tm_done_no_conflict; assumption.
-    + intros i k a b Ha Hb. unfold tm_epi in Ha. unfold tm_iter in Hb. rewrite Hf, app_nil_r in Hb.
-      apply in_app_or in Ha.
-      destruct Ha as [Ha|[<-|Ha]], Hb as [<-|Hb].
-      * apply avoid_not_conflict_tm; [eapply Hae; eauto|left; reflexivity].
-      * apply (He2 i k); assumption.
-      * apply reads_no_conflict; reflexivity.
-      * intros Hc. apply conflict_sym in Hc. revert Hc. apply avoid_not_conflict_tm; [eapply Hab; eauto|left; reflexivity].
-      * intros Hc. apply conflict_loc in Hc. cbn in Ha. destruct Ha as [<-|[<-|[<-|[<-|[]]]]]; cbn in Hc; discriminate.
-      * intros Hc. apply conflict_sym in Hc. revert Hc. apply avoid_not_conflict_tm; [eapply Hab; eauto|right; right; exact Ha].
-Qed.
+Proof. intros. apply tm_drf_gen; auto. Qed.
+
+(* with HasError under the mutex: every run *)
+Theorem tm_drf_locked : forall cap pre post body epi fails len n, 1 <= n ->
+  record_local body -> epilogue_local body epi ->
+  (forall k a, In a (body k) -> avoids_tm a) -> (forall i a, In a (epi i) -> avoids_tm a) ->
+  race_free cap (tm_exec_with hl_locked pre post body epi fails len n).
+Proof. intros. apply tm_drf_gen; auto. right. cbn. auto. Qed.
 
 (* F-C13-1: as soon as one record raises an error while another goroutine is still looping, the
    unsynchronised read in HasError races with the write in SetError *)
@@ -450,8 +512,8 @@ Theorem tm_error_race : forall cap pre post body epi fails len n i j k kj,
   race cap (tm_exec pre post body epi fails len n).
 Proof.
   intros cap pre post body epi fails len n i j k kj Hne Hi Hj Hk Hkj Hf.
-  unfold tm_exec, tm_workers.
-  apply (fj_race pre (tm_post ++ post) _ cap i j (mkAcc Wr tm_err ["gm.grTaskMutex"%string]) has_error Hne).
+  unfold tm_exec, tm_exec_with, tm_workers.
+  apply (fj_race pre (tm_post hl_current ++ post) _ cap i j (mkAcc Wr tm_err ["gm.grTaskMutex"%string]) has_error Hne).
   - rewrite nth_range_workers by exact Hi. apply in_or_app. left. apply in_flat_map.
     exists k. split; [exact Hk|]. unfold tm_iter. rewrite Hf. right. apply in_or_app. right. cbn. auto.
   - rewrite nth_range_workers by exact Hj. apply in_or_app. left. apply in_flat_map.
@@ -643,17 +705,22 @@ Section Discipline.
     unfold avoids_tm, tm_err. cbn. repeat split; discriminate.
   Qed.
 
-  (* a site that passes the syntactic check is race free on every error-free run, for every record
-     count and every number of goroutines *)
-  Theorem discipline_sound : forall cap pre post fails len n, 1 <= n -> (forall k, fails k = false) ->
-    race_free cap (site_exec s pre post fails len n).
+  (* a site that passes the syntactic check is race free on every error-free run - and on every run
+     once HasError takes the lock - for every record count and every number of goroutines *)
+  Theorem discipline_sound_gen : forall hl cap pre post fails len n, 1 <= n ->
+    ((forall k, fails k = false) \/ In "gm.grTaskMutex"%string hl) ->
+    race_free cap (site_exec_with hl s pre post fails len n).
   Proof.
-    intros cap pre post fails len n Hn Hf. unfold site_exec. apply tm_drf; try assumption.
+    intros hl cap pre post fails len n Hn Hf. unfold site_exec_with. apply tm_drf_gen; try assumption.
     - apply site_record_local.
     - apply site_epilogue_local.
     - apply site_body_avoids.
     - apply site_epi_avoids.
   Qed.
+
+  Theorem discipline_sound : forall cap pre post fails len n, 1 <= n -> (forall k, fails k = false) ->
+    race_free cap (site_exec s pre post fails len n).
+  Proof. intros. apply discipline_sound_gen; auto. Qed.
 End Discipline.
 
 (* ================================================================================================ *)
@@ -810,5 +877,81 @@ Section Decide.
     - apply (not_hb_by_closed_set (reach e2)); try assumption.
       + unfold reach. apply saturate_keeps. unfold ev_mem. cbn. rewrite (proj2 (ev_eqb_eq e2 e2) eq_refl). reflexivity.
       + apply negb_true_iff. assumption.
+  Qed.
+
+  (* ---- and the converse direction: deciding race FREEDOM of a concrete execution ---------------- *)
+  Lemma edgeb_edge : forall e e', edgeb e e' = true -> edge cap x e e'.
+  Proof.
+    intros [t i] [t' i'] H. unfold edgeb in H.
+    destruct (step_at x (t, i)) as [s|] eqn:E1; [|discriminate].
+    destruct (step_at x (t', i')) as [s'|] eqn:E2; [|discriminate].
+    cbn [fst snd] in H.
+    apply orb_true_iff in H. destruct H as [H|H].
+    - apply orb_true_iff in H. destruct H as [H|H].
+      + apply orb_true_iff in H. destruct H as [H|H].
+        * apply andb_true_iff in H. destruct H as [H1 H2]. apply Nat.eqb_eq in H1, H2. subst t' i'.
+          eapply E_po; eauto.
+        * destruct s; try discriminate. apply ev_eqb_eq in H. inversion H; subst.
+          eapply E_go; eauto.
+      + destruct s'; try discriminate. apply andb_true_iff in H. destruct H as [H1 H2].
+        apply Nat.eqb_eq in H1, H2. subst t. eapply E_wait; eauto.
+    - destruct s; try discriminate; destruct s'; try discriminate.
+      + apply andb_true_iff in H. destruct H as [H1 H2]. apply String.eqb_eq in H1. apply Nat.eqb_eq in H2. subst.
+        eapply E_chan; eauto.
+      + apply andb_true_iff in H. destruct H as [H1 H2]. apply String.eqb_eq in H1. apply Nat.eqb_eq in H2. subst.
+        eapply E_cap; eauto.
+      + apply String.eqb_eq in H. subst. eapply E_close; eauto.
+  Qed.
+
+  Lemma ev_mem_app : forall e l1 l2, ev_mem e (l1 ++ l2) = (ev_mem e l1 || ev_mem e l2)%bool.
+  Proof. intros. unfold ev_mem. apply existsb_app. Qed.
+
+  Lemma saturate_sound : forall fuel Q e,
+    (forall q, ev_mem q Q = true -> q = e \/ hb cap x e q) ->
+    forall q, ev_mem q (saturate fuel Q) = true -> q = e \/ hb cap x e q.
+  Proof.
+    induction fuel as [|f IH]; intros Q e HQ q Hq; [apply HQ; exact Hq|].
+    cbn [saturate] in Hq.
+    destruct (filter (fun e' => negb (ev_mem e' Q) && existsb (fun e0 => edgeb e0 e') Q) events) as [|h t] eqn:E.
+    - apply HQ. exact Hq.
+    - apply (IH (Q ++ h :: t) e); [|exact Hq].
+      intros q' Hq'. rewrite ev_mem_app in Hq'. apply orb_true_iff in Hq'. destruct Hq' as [Hq'|Hq']; [apply HQ; exact Hq'|].
+      unfold ev_mem in Hq'. apply existsb_exists in Hq'. destruct Hq' as [q0 [Hin Heq]].
+      apply ev_eqb_eq in Heq. subst q0. rewrite <- E in Hin. apply filter_In in Hin. destruct Hin as [_ Hin].
+      apply andb_true_iff in Hin. destruct Hin as [_ Hin]. apply existsb_exists in Hin.
+      destruct Hin as [e0 [He0 Hedge]]. apply edgeb_edge in Hedge.
+      assert (Hm : ev_mem e0 Q = true).
+      { unfold ev_mem. apply existsb_exists. exists e0. split; [exact He0|apply ev_eqb_eq; reflexivity]. }
+      right. destruct (HQ e0 Hm) as [->|Hhb]; [apply t_step; exact Hedge|].
+      eapply t_trans; [exact Hhb|apply t_step; exact Hedge].
+  Qed.
+
+  Lemma reach_sound : forall e q, ev_mem q (reach e) = true -> q = e \/ hb cap x e q.
+  Proof.
+    intros e q H. unfold reach in H. apply (saturate_sound (List.length events) [e] e); [|exact H].
+    intros q' Hq'. unfold ev_mem in Hq'. cbn in Hq'. rewrite orb_false_r in Hq'. apply ev_eqb_eq in Hq'. left. exact Hq'.
+  Qed.
+
+  Definition pair_okb (e1 e2 : ev) : bool :=
+    match step_at x e1, step_at x e2 with
+    | Some (SAcc a), Some (SAcc b) =>
+        Nat.eqb (fst e1) (fst e2) || negb (conflictb a b) || ev_mem e2 (reach e1) || ev_mem e1 (reach e2)
+    | _, _ => true
+    end.
+  Definition race_freeb : bool := forallb (fun e1 => forallb (pair_okb e1) events) events.
+
+  Lemma race_freeb_sound : race_freeb = true -> race_free cap x.
+  Proof.
+    intros H [e1 [e2 [a [b [Hne [H1 [H2 [Hc [Hn1 Hn2]]]]]]]]].
+    unfold race_freeb in H. rewrite forallb_forall in H.
+    specialize (H e1 (events_complete e1 _ H1)). rewrite forallb_forall in H.
+    specialize (H e2 (events_complete e2 _ H2)). unfold pair_okb in H. rewrite H1, H2 in H.
+    apply orb_true_iff in H. destruct H as [H|H].
+    - apply orb_true_iff in H. destruct H as [H|H].
+      + apply orb_true_iff in H. destruct H as [H|H].
+        * apply Nat.eqb_eq in H. contradiction.
+        * unfold conflict in Hc. rewrite Hc in H. discriminate.
+      + apply reach_sound in H. destruct H as [->|H]; [apply Hne; reflexivity|contradiction].
+    - apply reach_sound in H. destruct H as [->|H]; [apply Hne; reflexivity|contradiction].
   Qed.
 End Decide.
